@@ -125,7 +125,8 @@ class Ctx:
 
 class Contract:
     def __init__(self, qname, prop, pre=None, post=None, assigns=None, safety=(), use=(), signature=None, name=None,
-                 canary=True, unroll=None, setup=None, max_depth=None, name_locals=0, safety_via=None, relational=(), frame=None, on_call=None, ret_model=None, assumed=False, lambda_ordinal=None, slice_loop=None, prefix_loop=None, split_heap_ifs=False, var_lambda=None, captures=None, throws=(), suffix_loop=None):
+                 canary=True, unroll=None, setup=None, max_depth=None, name_locals=0, safety_via=None, relational=(), frame=None, on_call=None, ret_model=None, assumed=False, lambda_ordinal=None, slice_loop=None, prefix_loop=None, split_heap_ifs=False, var_lambda=None, captures=None, throws=(), suffix_loop=None, suffix_back=0):
+        self.suffix_back = suffix_back      # number of statements before the loop that belong to the tail (e.g. the declaration of an accumulator)
         self.suffix_loop = suffix_loop      # contract on the tail of the function: from loop #k (included) to the end, from an arbitrary state
         self.captures = captures
         self.throws = list(throws)        # used as a callee: classes of the exceptions the call may raise (after its frame effect)
@@ -254,7 +255,8 @@ class Contract:
 
 
 class LoopContract:
-    def __init__(self, qname, ordinal, invariant, modifies=(), decreases=None, name=None, keep=(), keep_keys=(), keep_at=()):
+    def __init__(self, qname, ordinal, invariant, modifies=(), decreases=None, name=None, keep=(), keep_keys=(), keep_at=(), keep_names=()):
+        self.keep_names = set(keep_names)     # locals (by name) the loop does not assign although the syntactic scan cannot tell
         self.keep_keys = list(keep_keys)
         # with modifies=['*']: (heap key, refs_fn) pairs whose entries at those references the loop leaves unchanged (checked)
         self.keep_at = list(keep_at)
@@ -316,7 +318,7 @@ class LoopContract:
         if range_info: mod.add(range_info['index_key'])
         if range_info and range_info.get('acc_key'): mod.add(range_info['acc_key'])
         for vid in mod:
-            if vid in self.keep: continue
+            if vid in self.keep or eng.var_names.get(vid) in self.keep_names: continue
             v = st.env[vid]
             if isinstance(v, LocalLV) and not v.path and v.var in st.env and not isinstance(st.env[v.var], LVS):
                 # a reference to a value held in the environment (by-reference scalar parameter): the referenced value changes
@@ -478,7 +480,7 @@ class Registry:
     def add_loop(self, lc): self.loops[(lc.qname, lc.ordinal)] = lc; return lc
     def loop_contract(self, qname, ordinal):
         lc = self.loops.get((qname, ordinal))
-        if lc is None and qname in getattr(self, 'default_havoc', ()):
+        if lc is None and (getattr(self, 'default_havoc', ()) == '*' or qname in getattr(self, 'default_havoc', ())):
             # a loop the specification does not know (the code was restructured): it may write anything; the function's
             # postconditions then have to hold without any knowledge about it
             lc = LoopContract(qname, ordinal, lambda L: [], modifies=['*'], name='loop%s(unknown to the specification: anything may change)' % ordinal)
@@ -601,6 +603,7 @@ def run_suffix(eng, contract, d, st, fr, result):
     for k, stmt in enumerate(body.get('inner', [])):
         if contains(stmt): idx = k; break
     if idx is None: raise Unsupported('suffix: loop #%s is not inside a top-level statement of %s' % (contract.suffix_loop, contract.qname))
+    idx = max(0, idx - contract.suffix_back)
     eng.lazy_locals = True
     try:
         tail = {'kind': 'CompoundStmt', 'id': 'suffix!' + str(body.get('id')), 'inner': body['inner'][idx:], '_file': body.get('_file'), '_line': body['inner'][idx].get('_line')}
